@@ -89,6 +89,7 @@ def run(rep, tier):
         ('ROUTE-raises', 'the translator compiles every inheritance route without raising'),
         ('START-inherited', 'a sub-grammar without a start of its own starts the nearest inherited start (rule or class) through _ctx'),
         ('SUBIMPORT-complete', 'the sub-grammar prologue imports every runtime name emitted code can mention'),
+        ('WIRE-import-shadow', 'a sub-grammar does not re-import from an ancestor a name it defines itself'),
         ('WIRE-ctx-param', 'every rule function and helper of a named grammar receives the context as a parameter '
                            '(inherited code must run with the context of the grammar being parsed)'),
         ('IGN-start-prefix', 'a start rule the sub-grammar defines itself begins by skipping ignorable text when '
@@ -99,6 +100,7 @@ def run(rep, tier):
     found, stats, nmods = routes.run(rep, 'C13', ['SUPER-', 'WIRE-', 'FREE-name', 'CONV-', 'SUBIMPORT-', 'START-inherited',
                                                    'IGN-start-prefix', 'IGN-every-literal'],
                                      label_filter=lambda msg: msg.startswith('sub-'), always=('WIRE-ctx-param',))
+    # (the prefix 'WIRE-' selects WIRE-import-shadow as well)
     rep.floor('route modules emitted', nmods, 26)
     rep.floor('context attribute reads examined', stats['ctx_reads'], 60)
     install_module_rule(rep)
